@@ -807,14 +807,17 @@ func (s *Server) handleRPCFormContract(stream net.Conn) error {
 
 	// update renter input basis to reflect our funding basis
 	if basis != req.Basis {
-		hostInputs := formationTxn.SiacoinInputs[len(req.RenterInputs):]
-		formationTxn.SiacoinInputs = formationTxn.SiacoinInputs[:len(req.RenterInputs)]
-		txnset, err := s.chain.UpdateV2TransactionSet([]types.V2Transaction{formationTxn}, req.Basis, basis)
+		// NOTE: only a copy is stripped of the host inputs so that the
+		// deferred release still covers them if the update fails
+		renterTxn := formationTxn
+		renterTxn.SiacoinInputs = formationTxn.SiacoinInputs[:len(req.RenterInputs):len(req.RenterInputs)]
+		txnset, err := s.chain.UpdateV2TransactionSet([]types.V2Transaction{renterTxn}, req.Basis, basis)
 		if err != nil {
 			return errorBadRequest("failed to update renter inputs from %q to %q: %v", req.Basis, basis, err)
+		} else if len(txnset) != 1 || len(txnset[0].SiacoinInputs) != len(req.RenterInputs) {
+			return errorBadRequest("failed to update renter inputs from %q to %q", req.Basis, basis)
 		}
-		formationTxn = txnset[0]
-		formationTxn.SiacoinInputs = append(formationTxn.SiacoinInputs, hostInputs...)
+		copy(formationTxn.SiacoinInputs, txnset[0].SiacoinInputs)
 	}
 
 	// read the renter's signatures
@@ -964,14 +967,17 @@ func (s *Server) handleRPCRefreshContract(stream net.Conn, partial bool) error {
 
 	// update renter inputs to reflect our chain state
 	if basis != req.Basis {
-		hostInputs := renewalTxn.SiacoinInputs[len(req.RenterInputs):]
-		renewalTxn.SiacoinInputs = renewalTxn.SiacoinInputs[:len(req.RenterInputs)]
-		updated, err := s.chain.UpdateV2TransactionSet([]types.V2Transaction{renewalTxn}, req.Basis, basis)
+		// NOTE: only a copy is stripped of the host inputs so that the
+		// deferred release still covers them if the update fails
+		renterTxn := renewalTxn
+		renterTxn.SiacoinInputs = renewalTxn.SiacoinInputs[:len(req.RenterInputs):len(req.RenterInputs)]
+		updated, err := s.chain.UpdateV2TransactionSet([]types.V2Transaction{renterTxn}, req.Basis, basis)
 		if err != nil {
 			return errorBadRequest("failed to update renter inputs from %q to %q: %v", req.Basis, basis, err)
+		} else if len(updated) != 1 || len(updated[0].SiacoinInputs) != len(req.RenterInputs) {
+			return errorBadRequest("failed to update renter inputs from %q to %q", req.Basis, basis)
 		}
-		renewalTxn = updated[0]
-		renewalTxn.SiacoinInputs = append(renewalTxn.SiacoinInputs, hostInputs...)
+		copy(renewalTxn.SiacoinInputs, updated[0].SiacoinInputs)
 	}
 
 	if elementBasis != basis {
@@ -1145,14 +1151,17 @@ func (s *Server) handleRPCRenewContract(stream net.Conn) error {
 
 	// update renter inputs to reflect our chain state
 	if basis != req.Basis {
-		hostInputs := renewalTxn.SiacoinInputs[len(req.RenterInputs):]
-		renewalTxn.SiacoinInputs = renewalTxn.SiacoinInputs[:len(req.RenterInputs)]
-		updated, err := s.chain.UpdateV2TransactionSet([]types.V2Transaction{renewalTxn}, req.Basis, basis)
+		// NOTE: only a copy is stripped of the host inputs so that the
+		// deferred release still covers them if the update fails
+		renterTxn := renewalTxn
+		renterTxn.SiacoinInputs = renewalTxn.SiacoinInputs[:len(req.RenterInputs):len(req.RenterInputs)]
+		updated, err := s.chain.UpdateV2TransactionSet([]types.V2Transaction{renterTxn}, req.Basis, basis)
 		if err != nil {
 			return errorBadRequest("failed to update renter inputs from %q to %q: %v", req.Basis, basis, err)
+		} else if len(updated) != 1 || len(updated[0].SiacoinInputs) != len(req.RenterInputs) {
+			return errorBadRequest("failed to update renter inputs from %q to %q", req.Basis, basis)
 		}
-		renewalTxn = updated[0]
-		renewalTxn.SiacoinInputs = append(renewalTxn.SiacoinInputs, hostInputs...)
+		copy(renewalTxn.SiacoinInputs, updated[0].SiacoinInputs)
 	}
 
 	if elementBasis != basis {
